@@ -237,9 +237,11 @@ def i4(ctx, rid):
         # the handler may be the Err arm of a `match` on the open result: then every index value a blob is built with is either
         # the opened one or a fresh Index::new
         inline = 0
+        all_opens = [(fb2.id, c.bb) for fb2 in open_path_bodies(prog) for c in fb2.calls
+                     if c.bb in fb2.reachable() and c.name == 'from_file' and any('IndexStruct' in t for t in prog.resolve(c))]
         for fb in open_path_bodies(prog):
             opens = [c for c in fb.calls if c.bb in fb.reachable() and c.name == 'from_file' and any('IndexStruct' in t for t in prog.resolve(c))]
-            if not opens:
+            if not all_opens:
                 continue
             for i, b in enumerate(fb.blocks):
                 if b['c'] or i not in fb.reachable():
@@ -249,8 +251,12 @@ def i4(ctx, rid):
                         inline += 1
                         k2 = 'open-failure-handler|%s' % prog.fns[fb.id].root
                         op = st['r']['ops'][st['r']['fields'].index('index')]
-                        ogs = core.origins(fb, op)
-                        okk = ogs and all(o.kind == 'call' and (o.data.bb in [c.bb for c in opens] or o.data.target.endswith('IndexStruct::<FileIndex, K>::new')
+                        roots_ = [prog.fns[x.id].root for x in open_path_bodies(prog)]
+                        # through the helpers of the open path only (an `open_or_create_index` that returns the index in a small
+                        # struct next to a flag): their aggregates and the constants of the sibling fields are not index values
+                        ogs = [o for o in core.origins_deep(prog, fb, op, depth=2, expand=lambda c2: any(t in roots_ for t in prog.resolve(c2)))
+                               if o.kind not in ('agg', 'const')]
+                        okk = ogs and all(o.kind == 'call' and ((o.fn.id, o.data.bb) in all_opens or o.data.bb in [c.bb for c in opens] or o.data.target.endswith('IndexStruct::<FileIndex, K>::new')
                                           or any(t in [prog.fns[x.id].root for x in open_path_bodies(prog)] for t in prog.resolve(o.data))) for o in ogs)
                         if okk:
                             ctx.ok(rid, k2, fb.where(i), 'the blob is built with the opened index or a fresh Index::new (rejected index files contribute nothing)')
